@@ -38,9 +38,10 @@ def chain_depth(depth, dirkind, dirlevel, v):
     return depth
 
 
-def _depth_single(d1: int, w0: int, wk: int, dirkind: int, dirlevel: int, v: bool, b2: int, limit: int) -> bool:
+def _depth_single(d1: int, w0: int, wk: int, dirkind: int, dirlevel: int, v: bool, b2: int, limit: int, vm: int = 0) -> bool:
     """
-    pre: 0 <= d1 <= DMAX and 0 <= w0 <= 2 and 0 <= wk <= 2
+    pre: 0 <= d1 <= DMAX and 0 <= w0 <= 2 and 0 <= wk <= 2 and 0 <= vm <= 3
+    pre: vm == 0 or (dirkind > 0 and (thorough() or b2 == 0))
     pre: 0 <= dirkind <= 2 and 0 <= dirlevel <= d1
     pre: 0 <= b2 <= 24
     pre: -1 <= limit <= 4
@@ -57,6 +58,7 @@ def _depth_single(d1: int, w0: int, wk: int, dirkind: int, dirlevel: int, v: boo
         return result(True, False)
     V = True if v else False
     B2 = concrete_int(b2, 0, 24)
+    VM = concrete_int(vm, 0, 3)
     with untraced():
         frags = []
         sels = [chain_text(D1, W0, WK, DK, DL, "a", frags, "x")]
@@ -67,30 +69,43 @@ def _depth_single(d1: int, w0: int, wk: int, dirkind: int, dirlevel: int, v: boo
             sels.append(chain_text(d2, w2, 0, 0, 0, "a" if samekey else "z", frags, "y"))
             depths.append(d2)
         always = [d for d in depths if d is not None]
-        src = "query Q($v: Boolean) { %s keep }\n%s" % (" ".join(sels), "\n".join(frags))
+        # how $v gets its value: 0 given; 1 omitted, the declaration's default applies; 2 omitted without a default; 3 explicit null
+        decl = "$v: Boolean = %s" % ("true" if V else "false") if VM == 1 else "$v: Boolean"
+        src = "query Q(%s) { %s keep }\n%s" % (decl, " ".join(sels), "\n".join(frags))
         doc = parse(src)
         exp_depth = max(always + [0])
         rule = MaxDepthValidationRule(limit)
-        errors = rule(None, doc, {"v": V})
+        from py_gql import build_schema
+        errors = rule(build_schema("type Query { keep: Int }"), doc, {"v": V} if VM == 0 else ({"v": None} if VM == 3 else {}))
+        if VM >= 2:
+            # the directive has no usable value: the operation cannot be executed; the rule must still answer (a list), whatever it says
+            return result(isinstance(errors, list), False)
         flagged = len(errors) > 0
         ok = flagged == (exp_depth > limit) and len(errors) <= 1
     return result(ok, exp_depth > 0)
 
 
-def _depth_ops(e1: int, e2: int, w1: int, w2: int, opname: int, limit: int) -> bool:
+def _depth_ops(e1: int, e2: int, w1: int, w2: int, opname: int, limit: int, gate: int = 0, swap: bool = False) -> bool:
     """
-    pre: 0 <= e1 <= 3 and 0 <= e2 <= 3 and 0 <= w1 <= 2 and 0 <= w2 <= 2 and 0 <= opname <= 3
+    pre: 0 <= e1 <= 3 and 0 <= e2 <= 3 and 0 <= w1 <= 2 and 0 <= w2 <= 2 and 0 <= opname <= 3 and 0 <= gate <= 3
     pre: -1000 <= limit <= 1000
     pre: shard_of(e1 * 4 + e2)
     post: _
     """
     E1, E2, W1, W2, ON = (concrete_int(e1, 0, 3), concrete_int(e2, 0, 3), concrete_int(w1, 0, 2), concrete_int(w2, 0, 2),
                           concrete_int(opname, 0, 3))
+    GATE = concrete_int(gate, 0, 3)
+    SW = True if swap else False
     with untraced():
         frags = []
         s1 = chain_text(E1, W1, 0, 0, 0, "a", frags, "p")
         s2 = chain_text(E2, W2, 0, 0, 0, "a", frags, "q")
-        src = "query A { %s }\nquery B { %s }\n%s" % (s1, s2, "\n".join(frags))
+        # every root selection of operation B switched off: nothing is selected there, whatever the other operation looks like
+        s2 = (s2, "... @skip(if: true) { %s }" % s2, "... @include(if: false) { %s }" % s2, "... @include(if: true) { ... @skip(if: true) { %s } }" % s2)[GATE]
+        ops = ["query A { %s }" % s1, "query B { %s }" % s2]
+        if SW:
+            ops.reverse()
+        src = "%s\n%s\n%s" % (ops[0], ops[1], "\n".join(frags))
         doc = parse(src)
         name = (None, "A", "B", "Nope")[ON]
     rule = MaxDepthValidationRule(limit, operation_name=name)
@@ -98,7 +113,7 @@ def _depth_ops(e1: int, e2: int, w1: int, w2: int, opname: int, limit: int) -> b
     exp = 0
     if name in (None, "A") and E1 > limit:
         exp += 1
-    if name in (None, "B") and E2 > limit:
+    if name in (None, "B") and (0 if GATE else E2) > limit:
         exp += 1
     ok = len(errors) == exp
     if ok and exp:
@@ -189,15 +204,16 @@ CONDITIONS = [
     Cond(
         name="depth_single", fn=_depth_single, quick=170, thorough=600, per_path=30, shards_quick=16, shards_thorough=16,
         bound="one operation: chain of depth <= 2 (thorough 3) with top level and deeper levels plain / inline fragment / named fragment, "
-              "@skip/@include(if: $v) at any level, $v true/false, optional second branch (depth 0..3, 3 wraps, same or other response key), every limit in -1..4 (solver-chosen, concrete after decoding; the symbolic limit is in depth_ops)",
+              "@skip/@include(if: $v) at any level, $v true/false given in the request or through the declaration's default (or missing / null: the rule must still return a list), optional second branch (depth 0..3, 3 wraps, same or other response key), every limit in -1..4 (solver-chosen, concrete after decoding; the symbolic limit is in depth_ops)",
         symbolic={"limit": "choice: the depth limit", "v": "data: variable value", "d1,w0,wk,dirkind,dirlevel,b2": "choice: document shape"},
         assumptions=["oracle: depth = nesting levels below the root fields along the longest selected path (class docstring example = 4)"],
-        witness={"d1": 2, "w0": 1, "wk": 2, "dirkind": 0, "dirlevel": 0, "v": False, "b2": 0, "limit": 1},
+        witness={"d1": 2, "w0": 1, "wk": 2, "dirkind": 0, "dirlevel": 0, "v": False, "b2": 0, "limit": 1, "vm": 0},
     ),
     Cond(
         name="depth_ops", fn=_depth_ops, quick=100, thorough=300, per_path=30, shards_quick=16, shards_thorough=16,
-        bound="two named operations of depth 0..3 each (top wrapped 3 ways), operation_name in {None, A, B, unknown}, limit symbolic in [-1000, 1000]",
-        symbolic={"limit": "data", "e1,e2,w1,w2,opname": "choice"},
-        witness={"e1": 1, "e2": 3, "w1": 0, "w2": 1, "opname": 2, "limit": 2},
+        bound="two named operations of depth 0..3 each (top wrapped 3 ways), in both orders, the second one as written or with all its root selections switched off by @skip / @include (3 spellings), "
+              "operation_name in {None, A, B, unknown}, limit symbolic in [-1000, 1000]",
+        symbolic={"limit": "data", "e1,e2,w1,w2,opname,gate,swap": "choice"},
+        witness={"e1": 1, "e2": 3, "w1": 0, "w2": 1, "opname": 2, "limit": 2, "gate": 0, "swap": False},
     ),
 ]
